@@ -402,5 +402,20 @@ fn main() {
             }
         }
     }
+    // ---- audit: the binary64 interpolation can leave [s[floor], s[ceil]] (Props/C12.v:
+    // C12_quantile_binary64_linear_above_higher): 50 valid elements, q = fl(1/49), fl(49 q) = 0.9999999999999999,
+    // fraction = 1, fl(vj - vi) rounded up.  Compared bit for bit with the binary64 model.
+    {
+        let mut xs: Vec<f64> = vec![-1.0, f64::from_bits(0x3CA0_0000_0000_0001)];
+        xs.extend(std::iter::repeat(1.0).take(48));
+        let q = 1.0f64 / 49.0;
+        let term_xs = coq_list(&xs, |x| coq_f64(*x));
+        for m in [0usize, 1, 2] {
+            em.case("exact", &format!("fn=vquantile ty=f64 be=vec len=13 nvalid=8 firstnull=0 family=overshoot q=frac1 method={} branch=asc", ["linear", "lower", "higher"][m]),
+                &format!("fn=vquantile ty=f64 be=vec q={:?} method={} xs=[-1, 2^-53+2^-105, 1 x 48]", q, m),
+                || format!("(run_quant_f {} {} {})", coq_f64(q), m, term_xs),
+                || quant(&xs, q, m));
+        }
+    }
     em.finish();
 }
